@@ -87,8 +87,11 @@ Section Response.
     destruct (latin1_opt (a_path a)) as [pth|]; [|discriminate].
     destruct (latin1_opt (a_comment a)) as [com|]; [|discriminate].
     destruct (latin1_opt (a_samesite a)) as [ss|]; [|discriminate].
-    destruct (match ss with Some s => if a_validate a && negb (samesite_ok s) then Raise ValueError else Ok tt | None => Ok tt end);
-      [|discriminate].
+    destruct (match ss with
+              | Some s => if (if a_validate a then negb (samesite_ok s) else negb (forallb is_token s))
+                          then Raise ValueError else Ok tt
+              | None => Ok tt
+              end); [|discriminate].
     split; [reflexivity|]. split; [apply valid_res_key_ok; exact Hv|].
     apply morsel_serialize_head in H. exact H.
   Qed.
@@ -215,12 +218,12 @@ Section Response.
       line_name line = Some (a_name a).
   Proof.
     intros hl a ov hl' H. unfold set_cookie in H.
-    destruct (if ov then unset_cookie enc hl (a_name a) false else (hl, Ok tt)) as [hl1 [u|e]] eqn:Hu; [|discriminate].
     destruct (match a_value a with
               | Some t => match enc t with Some b => Ok (Some b) | None => Raise UnicodeEncodeError end
               | None => Ok None
               end) as [value|e]; [|discriminate].
     destruct (make_cookie a value) as [line|e] eqn:Hm; [|discriminate].
+    destruct (if ov then unset_cookie enc hl (a_name a) false else (hl, Ok tt)) as [hl1 [u|e]] eqn:Hu; [|discriminate].
     inversion H; subst hl'. exists line. split; [|apply (make_cookie_line_name a value line Hm)].
     destruct ov; [|inversion Hu; reflexivity].
     destruct (make_cookie_head a value line Hm) as [Ha _].
@@ -237,51 +240,21 @@ Section Response.
     rewrite keyed_snoc, other_snoc, Hn. destruct ov; [rewrite keyed_drop, other_drop|]; split; reflexivity.
   Qed.
 
-  (* a refused set_cookie never touches the headers of other cookies *)
-  Definition set_tail (hl1 : headerlist) (a : ckargs) : headerlist * res unit :=
-    match (match a_value a with
-           | None => Ok None
-           | Some t => match enc t with Some b => Ok (Some b) | None => Raise UnicodeEncodeError end
-           end) with
-    | Raise e => (hl1, Raise e)
-    | Ok value =>
-        match make_cookie a value with
-        | Raise e => (hl1, Raise e)
-        | Ok line => (hl1 ++ [(set_cookie_key, line)], Ok tt)
-        end
-    end.
-
-  Lemma set_cookie_unfold : forall hl a ov,
-    set_cookie enc hl a ov =
-    match (if ov then unset_cookie enc hl (a_name a) false else (hl, Ok tt)) with
-    | (hl1, Raise e) => (hl1, Raise e)
-    | (hl1, Ok _) => set_tail hl1 a
-    end.
-  Proof. reflexivity. Qed.
-
-  Lemma set_tail_refused : forall hl1 a hl' e, set_tail hl1 a = (hl', Raise e) -> hl' = hl1.
+  (* a refused set_cookie changes nothing: the line is made before the old cookie of that name is removed *)
+  Theorem set_cookie_refused : forall hl a ov hl' e, set_cookie enc hl a ov = (hl', Raise e) -> hl' = hl.
   Proof.
-    intros hl1 a hl' e H. unfold set_tail in H.
+    intros hl a ov hl' e H. unfold set_cookie in H.
     destruct (match a_value a with
               | Some t => match enc t with Some b => Ok (Some b) | None => Raise UnicodeEncodeError end
               | None => Ok None
               end) as [value|e']; [|inversion H; reflexivity].
-    destruct (make_cookie a value); inversion H; reflexivity.
-  Qed.
-
-  Theorem set_cookie_refused : forall hl a ov hl' e, set_cookie enc hl a ov = (hl', Raise e) ->
-    hl' = hl \/ (ov = true /\ exists bname, enc (a_name a) = Some bname /\ hl' = drop_named bname hl).
-  Proof.
-    intros hl a ov hl' e H. rewrite set_cookie_unfold in H.
+    destruct (make_cookie a value) as [line|e'] eqn:Hm; [|inversion H; reflexivity].
     destruct ov.
-    - destruct (enc (a_name a)) as [bname|] eqn:He.
-      + destruct (unset_cookie_spec hl (a_name a) false bname He) as [H1 H2].
-        destruct (unset_cookie enc hl (a_name a) false) as [hl1 r1]. cbn [fst snd] in H1, H2. subst hl1.
-        right. split; [reflexivity|]. exists bname. split; [reflexivity|].
-        destruct r1; [apply set_tail_refused in H; exact H|inversion H; reflexivity].
-      + left. unfold unset_cookie in H. rewrite He in H.
-        destruct (cookie_lines hl); [apply set_tail_refused in H; exact H|inversion H; reflexivity].
-    - left. apply set_tail_refused in H. exact H.
+    - destruct (make_cookie_head a value line Hm) as [Ha _].
+      destruct (unset_cookie_spec hl (a_name a) false (a_name a) (enc_ascii _ Ha)) as [H1 H2].
+      destruct (unset_cookie enc hl (a_name a) false) as [hl1 r1]. cbn [fst snd] in H1, H2.
+      destruct (keyed_has (a_name a) (keyed_of hl)); subst r1; discriminate.
+    - discriminate.
   Qed.
 
   (* merge_cookies appends this response's Set-Cookie lines to the other response, in order *)
